@@ -6,8 +6,13 @@
    number of commands queued at the manager, queued in activeMsgChan, written and waiting, with timers
    sleeping or firing and timeout messages queued.
 
-   OCrash is a send on a closed channel or the close of a closed channel (a process-wide panic in Go).
-   A second answer to the same caller would be a send on its closed reply channel; that is the NoDup. *)
+   OCrash is a send on a closed channel or the close of a closed channel (a process-wide panic in Go) among
+   stopChan, msgChan, activeMsgChan, activeMsgCompleteChan and reissuePackChan of the connection.
+   A second answer to the same caller would be a send on its closed reply channel; that is the NoDup, which
+   holds under no_reuse only (C12_refuted_reuse: a reused serial loses a caller, it does not answer one twice,
+   but the invariant that proves NoDup needs the hypothesis; it holds for every run with at most 65 536 frames
+   on the connection, C12_no_reuse_when_few_frames).  Other panic classes (nil dereference, index out of
+   range in a decoder, ...) are not in this model: C03/C10. *)
 From Coq Require Import List NArith Bool Arith.
 From JT.Base Require Import Sched.
 From JT.Model Require Import Writer.
@@ -25,7 +30,8 @@ Qed.
 Print Assumptions C13_no_crash.
 
 (* Once the terminal is gone, in every state in which no process of the server can move any more every
-   call that was made has returned (with a response, a timeout, a write failure or ErrNotExistKey). *)
+   call that was made has returned (with a response, a timeout, a write failure or ErrNotExistKey) - under
+   no_reuse. *)
 Theorem C13_every_caller_returns : forall s0 sched,
   let s := final step (init s0) sched in let tr := trace step (init s0) sched in
   no_reuse tr -> quiescent s -> peer_closed s = true ->
@@ -33,25 +39,35 @@ Theorem C13_every_caller_returns : forall s0 sched,
 Proof. exact stopped_all_return. Qed.
 Print Assumptions C13_every_caller_returns.
 
-(* ... and such a state is reached: every step of the server (everything except new calls, terminal
-   messages and the disconnect itself) decreases a measure of the state, so from any state the server can
-   take at most [measure s] steps on its own, whatever the interleaving. *)
+(* Every step of the server (everything except new calls, terminal messages and the disconnect itself)
+   decreases a measure of the state ... *)
 Theorem C13_server_settles : forall s c s' o,
   internal c = true -> step s c = Some (s', o) -> (measure s' < measure s)%nat.
 Proof. exact measure_step. Qed.
 Print Assumptions C13_server_settles.
 
+(* ... so from any state the server can take at most [measure s] steps on its own, whatever the interleaving ... *)
 Theorem C13_bounded_steps : forall sched s,
   Forall (fun c => internal c = true) sched -> (executed s sched <= measure s)%nat.
 Proof. exact internal_steps_bounded. Qed.
 Print Assumptions C13_bounded_steps.
+
+(* ... and a quiescent state IS reached: from every state (reachable or not) some schedule of at most
+   [measure s] server steps ends in a state in which no server step is enabled; by C13_bounded_steps no
+   schedule of server steps can avoid such a state for more than [measure s] enabled steps.  (What is
+   assumed of the real scheduler is only that an enabled goroutine eventually runs.) *)
+Theorem C13_quiescent_reached : forall s,
+  exists sched, Forall (fun c => internal c = true) sched /\ quiescent (final step s sched) /\
+                (length sched <= measure s)%nat.
+Proof. exact quiescent_reached. Qed.
+Print Assumptions C13_quiescent_reached.
 
 (* ---- satisfiable: disconnect with one command outstanding, one queued in activeMsgChan and one still
         with the manager; everybody is answered, the final state is quiescent ---- *)
 Definition up : list choice := [PeerSend (TOther 7 true); RdRead; MgrStep JOk; RdPush; WMsg 0 true].
 Definition teardown : list choice :=
   up ++ [Call 33027 true; Call 33027 true; MgrStep JOk; MgrStep JOk; WAct true;
-         PeerClose; RdFail; Call 33027 false; MgrStep JOk; MgrStep JOk; RdClose; RdClose; RdClose;
+         PeerClose; RdFail; Call 33027 false; MgrStep JOk; MgrStep JOk; RdClose; RdClose; RdClose; RdClose;
          WStop; WDrain; WDrain; TQuit 0].
 
 Example C13_teardown_returns :
@@ -68,8 +84,10 @@ Proof.
   - vm_compute. intuition discriminate.
 Qed.
 
-(* ---- the historical defects, as schedules of the model of the code as it was (Model/WriterHist.v,
-        DESIGN.md A.5); each was confirmed on the socket before the repair ---- *)
+(* ---- the historical defects, as schedules of the MODEL of the code as it was (Model/WriterHist.v,
+        DESIGN.md A.5).  These theorems are about that model only; the defects themselves were confirmed on the
+        socket before the repairs (known_findings.json "fixed"), and the harness's `wold` op merely pins the
+        extracted WriterHist to the recorded outputs ---- *)
 Import WriterHist.
 
 (* a9e0f38: the timer passed its stopChan check, stop() closed the channel, the timer sent *)
